@@ -22,7 +22,7 @@ def run_config(prog, cfg):
     nullslot.null_slot_rule(prog, r1, DECODE_SIDE, tab)
     for i in r1.insts:
         i.config = cfg
-    return [r1]
+    return [r1, r04_5(prog, cfg), r04_6(prog, cfg)]
 
 
 def run(ctx):
@@ -37,3 +37,203 @@ def thorough(ctx):
     import sys
     out += selftest.run_mutants("C04", sys.modules[__name__])
     return out
+
+
+# ------------------------------------------------------------------------------------------ R04.5
+def r04_5(prog, cfg):
+    """Heap-or-stack scratch buffers: where a pointer is pointed at a fixed local array, every store `p[i]` and every
+    memcpy/memset of n bytes through that pointer must be reached only through a branch edge that implies i < K
+    (n <= K), K being the array's element count.  Also: no unbounded libc writers in the skeletons at all."""
+    import re
+    from ..model import strip_casts, is_var, tree_text, walk
+    from .. import assume
+    r = Rule("R04.5", "writes through a pointer that may point at a fixed-size stack array are bounded by the array size on the edge that selected the array; no unbounded libc writer is used", floor=4 if cfg == "default" else 0)
+    banned = {"strcpy", "strcat", "sprintf", "vsprintf", "gets", "alloca", "__builtin_alloca"}
+    for f in sorted(prog.funcs.values(), key=lambda f: f.key):
+        for b, i, e in f.calls():
+            if e.get("callee") in banned:
+                r.bad(f, e["callee"], "unbounded writer %s" % e["callee"], e["line"])
+        for b, i, e in f.events("decl"):
+            if e.get("vla"):
+                r.bad(f, "vla:" + e["var"], "variable-length array `%s`: its size comes from a run-time value" % e["var"], e["line"])
+        arrays = {}
+        for b, i, e in f.events("decl"):
+            if e.get("is_array") and not e.get("static_local") and not e.get("vla"):
+                m = re.search(r"\[(\d+)\]", e["type"])
+                if m:
+                    arrays[e["id"]] = int(m.group(1))
+        if not arrays:
+            continue
+        # holder = array assignments
+        assigns = []
+        for b, i, e in f.events():
+            t = None
+            if e["k"] == "assign" and e.get("op") == "=" and "rhs" in e:
+                t = strip_casts(e["rhs"]["tree"])
+                h = e.get("lhs")
+            elif e["k"] == "decl" and "init" in e and "*" in e.get("type", ""):
+                t = strip_casts(e["init"]["tree"])
+                h = e["var"]
+            if t is not None and is_var(t) and t[1] in arrays:
+                assigns.append((b, i, h, t[1]))
+        # heap allocations into the same holder (the sibling branch of the selection idiom)
+        heap_assign = {}
+        for b, i, e in f.events("assign"):
+            if e.get("op") == "=" and "rhs" in e and set(e["rhs"].get("calls", [])) & {"malloc", "calloc", "realloc"}:
+                heap_assign.setdefault(e.get("lhs"), []).append(b.id)
+        for ab, ai, holder, arr in assigns:
+            K = arrays[arr]
+            # selection idiom only: some branch sends one edge to `holder = array` and the other to `holder = malloc(..)`
+            selected = False
+            for tb in f.blocks.values():
+                if not tb.term or "cond" not in tb.term or len(tb.succ) < 2:
+                    continue
+                for idx in (0, 1):
+                    o = tb.succ[1 - idx]
+                    if tb.succ[idx] is None or o is None or not f.edge_dominates(tb.id, idx, ab.id):
+                        continue
+                    if any(hb in f.reachable_from([o], stop=lambda x: x == ab.id) and not f.edge_dominates(tb.id, idx, hb) for hb in heap_assign.get(holder, [])):
+                        selected = True
+            if not selected:
+                continue
+            redef = {b.id for b, i, e in f.events("assign") if e.get("lhs") == holder and (b.id, i) != (ab.id, ai)}
+            reach = f.reachable_from([ab.id], stop=lambda x: x in redef and x != ab.id)
+            for wb, wi, w in f.events():
+                if wb.id not in reach or (wb.id == ab.id and wi <= ai):
+                    continue
+                need = None
+                if w["k"] == "subscript" and tree_text(w["basex"]["tree"]) == holder and "const" not in w["index"]:
+                    # only stores matter, but a read beyond the array is a defect as well
+                    need = ("<", w["index"]["tree"], "index")
+                elif w["k"] == "call" and w.get("callee") in ("memcpy", "memmove", "memset") and w["args"] and \
+                        tree_text(strip_casts(w["args"][0]["tree"])) == holder and "const" not in w["args"][2]:
+                    need = ("<=", w["args"][2]["tree"], "length")
+                if need is None:
+                    continue
+                op, tree, what = need
+                key = "%s:%s[%s]" % (holder, arr.split("@")[0], tree_text(tree))
+                # a branch edge that dominates the assignment `holder = array` and implies the bound
+                q = ["bin", op, tree, ["int", K]]
+                ok = False
+                for tb in f.blocks.values():
+                    if not tb.term or "cond" not in tb.term or len(tb.succ) < 2:
+                        continue
+                    for idx, truth in ((0, True), (1, False)):
+                        if tb.succ[idx] is None or not f.edge_dominates(tb.id, idx, ab.id):
+                            continue
+                        fo = assume._fact_of(tb.term["cond"]["tree"], truth)
+                        if fo is not None and assume.fact_query((fo,), q) is True:
+                            ok = True
+                if ok:
+                    r.ok(f, key, "`%s` points at %s[%d] only on an edge that implies %s %s %d" % (holder, arr.split("@")[0], K, tree_text(tree), op, K), w.get("line"))
+                else:
+                    r.bad(f, key, "`%s` may point at the %d-element stack array `%s` while the %s `%s` is not known to be %s %d on that path: "
+                                  "the write runs past the array for the boundary value" % (holder, K, arr.split("@")[0], what, tree_text(tree), op, K), w.get("line"))
+    for i in r.insts:
+        i.config = cfg
+    return r
+
+
+# ------------------------------------------------------------------------------------------ R04.6
+def r04_6(prog, cfg):
+    """Appending decoders: a call that writes `count` units at the end of a heap buffer field (`&st->buf[st->size]`)
+    must, on every path from where that count was obtained, first pass a (re)allocation whose size mentions the count."""
+    from ..model import strip_casts, is_var, tree_text, walk
+    from ..dataflow import reaching_defs
+    from .c15 import must_pass
+    from . import common
+    r = Rule("R04.6", "data appended to a heap buffer field is preceded, on every path from the length fetch, by a reallocation sized with that length", floor=4 if cfg == "default" else 0)
+    writers = {"OCTET_STRING_per_get_characters": (1, 2), "per_get_many_bits": (1, 3), "asn_get_many_bits": (1, 3), "memcpy": (0, 2), "memmove": (0, 2)}
+    cg = prog.callgraph()
+    scope = cg.reachable(common.slot_functions(prog, common.DECODER_SLOTS))
+    for k in sorted(scope):
+        f = prog.funcs[k]
+        rd = None
+        for b, i, e in f.calls():
+            cal = e.get("callee")
+            if cal not in writers:
+                continue
+            di, ci = writers[cal]
+            if max(di, ci) >= len(e["args"]):
+                continue
+            dt = e["args"][di]["tree"]
+            has_buf = any(n[0] == "member" and n[2] == "buf" and n[3] for n in walk(dt))
+            has_size = any(n[0] == "member" and n[2] == "size" and n[3] for n in walk(dt))
+            if not (has_buf and has_size):
+                continue
+            cvars = {n[1] for n in walk(e["args"][ci]["tree"]) if n[0] == "var" and n[2] in ("local", "param")}
+            if not cvars:
+                continue
+            if rd is None:
+                rd, deftree = reaching_defs(f)
+            # derivation closure (both directions, flow-insensitive): len_bytes = raw_len * bpc
+            D = set(cvars)
+            changed = True
+            while changed:
+                changed = False
+                for b2, i2, e2 in f.events():
+                    tgt = tree = None
+                    if e2["k"] == "assign" and e2.get("base_id") and not e2.get("deref") and "rhs" in e2:
+                        tgt, tree = e2["base_id"], e2["rhs"]["tree"]
+                    elif e2["k"] == "decl" and "init" in e2:
+                        tgt, tree = e2["id"], e2["init"]["tree"]
+                    if tgt is None:
+                        continue
+                    vs = {n[1] for n in walk(tree) if n[0] == "var" and n[2] == "local"}
+                    if tgt in D and (vs - D) and not any(n[0] in ("call", "icall") for n in walk(tree)):
+                        D |= vs         # the count is computed from these (len_bits = len_bytes * 8)
+                        changed = True
+                    if (vs & D) and tgt not in D:
+                        D.add(tgt)
+                        changed = True
+            def is_alloc(x, D=D):
+                if x["k"] != "call" or x.get("callee") not in ("realloc", "malloc", "calloc"):
+                    return False
+                return any(n[0] == "var" and n[1] in D for a in x.get("args", []) for n in walk(a.get("tree")))
+
+            def passes(start, tb_, ti_):
+                # like must_pass, with capacity-check blocks as barriers too
+                st_, seen_ = [start], set()
+                while st_:
+                    x_ = st_.pop()
+                    if x_ in seen_:
+                        continue
+                    seen_.add(x_)
+                    blk_ = f.blocks[x_]
+                    evs_ = blk_.ev[:ti_] if x_ == tb_ else blk_.ev
+                    if any(is_alloc(y) for y in evs_):
+                        continue
+                    if x_ in cap_blocks and x_ != tb_:
+                        continue
+                    if x_ == tb_:
+                        return False
+                    st_.extend(blk_.succs())
+                return True
+            # capacity-tracking idiom: `if(allocated <= needed) realloc` — the skip edge of a comparison between a value
+            # derived from the count and another non-constant value is as good as the allocation itself
+            cap_blocks = set()
+            for tb in f.blocks.values():
+                if tb.term and "cond" in tb.term:
+                    c = strip_casts(tb.term["cond"]["tree"])
+                    if isinstance(c, list) and c[0] == "bin" and c[1] in ("<", "<=", ">", ">="):
+                        from ..model import const_of
+                        lv = {n[1] for n in walk(c[2]) if n[0] == "var"}
+                        rv_ = {n[1] for n in walk(c[3]) if n[0] == "var"}
+                        if const_of(c[2]) is None and const_of(c[3]) is None and ((lv & D and rv_ - D) or (rv_ & D and lv - D) or (lv & D and rv_ & D)):
+                            cap_blocks.add(tb.id)
+            key = "%s(%s, %s)" % (cal, tree_text(dt), tree_text(e["args"][ci]["tree"]))
+            bad = None
+            here = rd.get((b.id, i), {})
+            for v in cvars:
+                for (db, dx) in here.get(v, ()):
+                    if not passes(db, b.id, i) and not (db == b.id and any(is_alloc(x) for x in f.blocks[db].ev[dx:i])):
+                        bad = (v, db)
+            if bad is None:
+                r.ok(f, key, "every path from the definition of the count to this append passes a (re)allocation sized with it", e["line"])
+            else:
+                r.bad(f, key, "`%s` units are appended at the end of the buffer on a path from the definition of `%s` that passes no (re)allocation "
+                              "sized with it: the buffer keeps an earlier size and the write runs past it" % (
+                                  tree_text(e["args"][ci]["tree"]), bad[0].split("@")[0]), e["line"])
+    for i in r.insts:
+        i.config = cfg
+    return r
